@@ -873,13 +873,13 @@ class C16(Property):
         "plural_choice", "plural_missing_count", "ungettext_receives_count",
         "findTransformer_eq_spec", "transformer_full_fails", "translator_applied",
         "expand_plain_refines", "expand_plural_refines",
-        "expand_total", "no_percent_left",
+        "expand_total", "no_percent_left", "expandMessage_ok_expansion",
         "builtin_expand_total", "catalogue_expand_total")]
     generated_obligations = ["Flatland.C16.Proofs." + t for t in (
         "catalogues_listed", "catalogue_placeholders", "catalogue_complete", "builtin_keys_supplied",
         "builtin_no_escape")]
-    quick_n = 4000
-    thorough_n = 150000
+    quick_n = 100000
+    thorough_n = 600000
     trusted_base = [
         "Python's `str % mapping` modelled for the fragment %(key)s / %% only (other conversions are reported as Unsupported and not compared)",
         "int(str) modelled for ASCII digits/sign/underscores/whitespace (no Unicode digits, no 4300-digit limit)",
